@@ -1092,3 +1092,333 @@ Proof.
         destruct (RD f (prune x0) (x :: acc) c2) as (c' & E' & CK'); [lia|exact CK2|]. exists c'. rewrite E'.
         unfold pruned_list. cbn [filter rev]. rewrite NB. cbn [negb map]. rewrite <- app_assoc. auto.
 Qed.
+
+Lemma block_node_seq f r c minlit akey : starts_blank_or_end r = true ->
+  block_node (S f) (45 :: r) c minlit akey = block_seq f (45 :: r) c c [].
+Proof. intros H. cbn [block_node]. change ((45 =? 91) || (45 =? 123)) with false. change (45 =? 124) with false. cbn [is_seq_mark]. now rewrite H. Qed.
+
+(** a whole block sequence, from its first dash *)
+Lemma block_seq_all d n b l : (d <= 2)%nat -> (b <= n)%nat -> Forall P_block l -> Forall tree_ok l ->
+  forall o, (col o <= n)%nat ->
+  (seq_loop (seq_child d n) l 0%nat o = (o, 0%nat) /\ pruned_list l = []) \/
+  (exists E k', seq_loop (seq_child d n) l 0%nat o = (put o (repeat SP (n - col o) ++ 45 :: E), k') /\ (1 <= k')%nat /\
+     (forall t, starts_blank_or_end (E ++ t) = true) /\
+     forall f rest rest' kf, (length E < f)%nat -> follows_b b rest rest' kf ->
+       exists c', block_seq (S f) (45 :: E ++ rest) n n [] = Some (Lst (pruned_list l), rest', c') /\ (rest' <> [] -> c' = kf)).
+Proof.
+  intros D BN. induction l as [|x0 r IH]; intros FP FT o CO; [left; split; reflexivity|].
+  inversion FP as [|? ? P0 FP']; subst. inversion FT as [|? ? T0 FT']; subst. cbn [seq_loop].
+  destruct (is_nullb x0) eqn:NB.
+  - destruct (IH FP' FT' o CO) as [[E Q]|(E & k' & EL & K & SB & R)].
+    + left. split; [exact E|]. unfold pruned_list in *. cbn [filter]. now rewrite NB.
+    + right. exists E, k'. repeat split; auto. intros f rest rest' kf L FO. destruct (R f rest rest' kf L FO) as (c' & E' & CK).
+      exists c'. rewrite E'. unfold pruned_list. cbn [filter]. rewrite NB. auto.
+  - right. destruct (seq_child_reads d n x0 D P0 T0 (is_nullb_false _ NB) 0%nat o) as (E0 & EM & SB & RD0); [auto|].
+    cbn [Nat.eqb] in EM. rewrite EM.
+    destruct (block_seq_rest d n b r D BN FP' FT' 1%nat (put o (repeat SP (n - col o) ++ 45 :: E0))) as (W & k' & EL & K' & R); [lia|].
+    exists (E0 ++ W), k'. rewrite EL, put_put. split; [|split; [exact K'|split]].
+    + f_equal. repeat (rewrite <- app_assoc; cbn [app]). reflexivity.
+    + intros t. rewrite <- app_assoc. apply SB.
+    + intros f rest rest' kf L FO. destruct (R rest rest' kf FO) as (R2 & K2 & F2 & RD).
+      rewrite app_length in L. rewrite block_seq_S. rewrite <- app_assoc.
+      destruct (RD0 f (W ++ rest) R2 K2) as (c2 & E2 & CK2); [lia|exact F2|]. rewrite E2.
+      destruct (RD f (prune x0) [] c2) as (c' & E' & CK'); [lia|exact CK2|]. exists c'. rewrite E'.
+      unfold pruned_list. cbn [filter rev app]. rewrite NB. auto.
+Qed.
+
+(** ** block maps: the parser's steps *)
+Definition map_entry (f : nat) (l : octs) (c m : nat) : option (bytes * item * octs * nat) :=
+        if is_longkey_mark l then
+          
+          let '(r1, c1) := skip_sp (skipn 1 l) (S c) in
+          match block_node f r1 c1 (S m) false with
+          | Some (Scalar k, r2, c2) =>
+              if (Nat.eqb c2 m && is_value_mark r2)%bool then
+                match skipn 1 r2 with
+                | (32 :: _) as r3 =>
+                    let '(r4, c4) := skip_sp r3 (S c2) in
+                    match r4 with
+                    | [] => Some (k, Null, [], c4)
+                    | _ => match block_node f r4 c4 (S m) true with
+                           | Some (v, r5, c5) => Some (k, v, r5, c5)
+                           | None => None
+                           end
+                    end
+                | r3 =>
+                    match to_ls r3 (S c2) with
+                    | Some (r4, c4) =>
+                        match r4 with
+                        | [] => Some (k, Null, [], c4)
+                        | _ => if Nat.ltb m c4 then
+                                 match block_node f r4 c4 (S m) true with
+                                 | Some (v, r5, c5) => Some (k, v, r5, c5)
+                                 | None => None
+                                 end
+                               else Some (k, Null, r4, c4)
+                        end
+                    | None => None
+                    end
+                end
+              else None
+          | _ => None
+          end
+        else
+          match key_scalar l c with
+          | Some (k, r1, c1) =>
+              if Nat.ltb 1024 (c1 - c) then None
+              else if is_value_mark r1 then
+                match skipn 1 r1 with
+                | (32 :: _) as r3 =>
+                    let '(r4, c4) := skip_sp r3 (S c1) in
+                    match r4 with
+                    | [] => Some (unnums k, Null, [], c4)
+                    | _ => match block_node f r4 c4 (S m) false with
+                           | Some (v, r5, c5) => Some (unnums k, v, r5, c5)
+                           | None => None
+                           end
+                    end
+                | r3 =>
+                    match to_ls r3 (S c1) with
+                    | Some (r4, c4) =>
+                        match r4 with
+                        | [] => Some (unnums k, Null, [], c4)
+                        | _ => if Nat.ltb m c4 then
+                                 match block_node f r4 c4 (S m) true with
+                                 | Some (v, r5, c5) => Some (unnums k, v, r5, c5)
+                                 | None => None
+                                 end
+                               else Some (unnums k, Null, r4, c4)
+                        end
+                    | None => None
+                    end
+                end
+              else None
+          | None => None
+          end.
+
+Definition block_map_after (f : nat) (k : bytes) (v : item) (acc : list (bytes * item)) (r2 : octs) (c2 m : nat)
+  : option (item * octs * nat) :=
+  match r2 with
+  | [] => Some (build_map (rev ((k, v) :: acc)), [], c2)
+  | _ =>
+      if Nat.ltb c2 m then Some (build_map (rev ((k, v) :: acc)), r2, c2)
+      else if Nat.eqb c2 m then block_map f r2 c2 m ((k, v) :: acc)
+      else None
+  end.
+
+Lemma block_map_S f l c m acc :
+  block_map (S f) l c m acc =
+  match map_entry f l c m with Some (k, v, r2, c2) => block_map_after f k v acc r2 c2 m | None => None end.
+Proof. reflexivity. Qed.
+
+Lemma map_entry_simple_inline f ktok k q w rest c m :
+  match ktok with x :: _ => x <> 63 | [] => False end -> (length ktok <= 1024)%nat -> nb_head w ->
+  flow_scalar (ktok ++ 58 :: 32 :: repeat SP q ++ w ++ rest) c = Some (k, 58 :: 32 :: repeat SP q ++ w ++ rest, (c + length ktok)%nat) ->
+  map_entry f (ktok ++ 58 :: 32 :: repeat SP q ++ w ++ rest) c m =
+  match block_node f (w ++ rest) (S (c + length ktok) + S q)%nat (S m) false with
+  | Some (v, r5, c5) => Some (unnums k, v, r5, c5)
+  | None => None
+  end.
+Proof.
+  intros HK LK NB FS. unfold map_entry.
+  assert (is_longkey_mark (ktok ++ 58 :: 32 :: repeat SP q ++ w ++ rest) = false) as ->.
+  { destruct ktok as [|x kt]; [contradiction|]. cbn [app]. now apply is_longkey_mark_other. }
+  unfold key_scalar. rewrite FS.
+  replace (Nat.ltb 1024 (c + length ktok - c)) with false by (symmetry; apply Nat.ltb_ge; lia).
+  cbn [is_value_mark starts_blank_or_end skipn]. change (32 =? 32) with true. cbn [orb].
+  change (32 :: repeat SP q ++ w ++ rest) with (repeat SP (S q) ++ w ++ rest).
+  destruct (nb_head_app w rest NB) as (x & t & E & N1 & N2).
+  rewrite skip_sp_repeat, E, skip_sp_stop by exact N1. reflexivity.
+Qed.
+
+Lemma map_entry_simple_nextline f ktok k p w rest c m :
+  match ktok with x :: _ => x <> 63 | [] => False end -> (length ktok <= 1024)%nat -> nb_head w -> (m < p)%nat ->
+  flow_scalar (ktok ++ 58 :: 10 :: repeat SP p ++ w ++ rest) c = Some (k, 58 :: 10 :: repeat SP p ++ w ++ rest, (c + length ktok)%nat) ->
+  map_entry f (ktok ++ 58 :: 10 :: repeat SP p ++ w ++ rest) c m =
+  match block_node f (w ++ rest) p (S m) true with
+  | Some (v, r5, c5) => Some (unnums k, v, r5, c5)
+  | None => None
+  end.
+Proof.
+  intros HK LK NB MP FS. unfold map_entry.
+  assert (is_longkey_mark (ktok ++ 58 :: 10 :: repeat SP p ++ w ++ rest) = false) as ->.
+  { destruct ktok as [|x kt]; [contradiction|]. cbn [app]. now apply is_longkey_mark_other. }
+  unfold key_scalar. rewrite FS.
+  replace (Nat.ltb 1024 (c + length ktok - c)) with false by (symmetry; apply Nat.ltb_ge; lia).
+  cbn [is_value_mark starts_blank_or_end skipn]. change (10 =? 32) with false. change (10 =? 10) with true. cbn [orb].
+  destruct (nb_head_app w rest NB) as (x & t & E & N1 & N2). rewrite E.
+  unfold to_ls. cbn [next_line]. change (10 =? 10) with true. cbv iota. rewrite next_line_spaces by assumption.
+  cbn [Nat.add]. replace (Nat.ltb m p) with true by (symmetry; apply Nat.ltb_lt; exact MP). reflexivity.
+Qed.
+
+Lemma map_entry_long f kw tailk k q w rest c m :
+  nb_head kw -> nb_head w ->
+  block_node f (kw ++ tailk) (S c + 1)%nat (S m) false = Some (Scalar k, 58 :: 32 :: repeat SP q ++ w ++ rest, m) ->
+  map_entry f (63 :: 32 :: kw ++ tailk) c m =
+  match block_node f (w ++ rest) (S m + S q)%nat (S m) true with
+  | Some (v, r5, c5) => Some (k, v, r5, c5)
+  | None => None
+  end.
+Proof.
+  intros NK NB BK. unfold map_entry. cbn [is_longkey_mark skipn].
+  destruct (nb_head_app kw tailk NK) as (x & t & E & N1 & N2).
+  change (32 :: kw ++ tailk) with (repeat SP 1 ++ kw ++ tailk). rewrite skip_sp_repeat. rewrite E in *. rewrite skip_sp_stop by exact N1.
+  rewrite BK. rewrite Nat.eqb_refl. cbn [is_value_mark starts_blank_or_end andb skipn]. change (32 =? 32) with true. cbn [orb].
+  change (32 :: repeat SP q ++ w ++ rest) with (repeat SP (S q) ++ w ++ rest).
+  destruct (nb_head_app w rest NB) as (y & t' & E' & M1 & M2).
+  rewrite skip_sp_repeat, E', skip_sp_stop by exact M1. reflexivity.
+Qed.
+
+(** ** what the block map Prepare functions write *)
+Definition bsep (n k : nat) (o : out) : octs := if Nat.eqb k 0 then repeat SP (n - col o) else 10 :: repeat SP n.
+
+Lemma col_bsep n k o : (k = 0%nat -> (col o <= n)%nat) -> col (put o (bsep n k o)) = n /\ indent_to (nl_if (Nat.ltb 0 k) o) n = put o (bsep n k o).
+Proof.
+  intros C. unfold bsep. destruct k as [|k]; cbn [Nat.eqb Nat.ltb Nat.leb nl_if].
+  - specialize (C eq_refl). rewrite indent_to_put, col_put_spaces. split; [lia|reflexivity].
+  - rewrite indent_to_put, col_put_lf, Nat.sub_0_r, put_put. split; [|reflexivity].
+    change (10 :: repeat SP n) with ([10] ++ repeat SP n). rewrite <- put_put, col_put_spaces, col_put_lf. lia.
+Qed.
+
+Lemma prep_bmap_key_put n k long o : (k = 0%nat -> (col o <= n)%nat) ->
+  prep_bmap_key n k long o = put o (bsep n k o ++ (if long then [63; 32] else [])) /\
+  col (prep_bmap_key n k long o) = (if long then n + 2 else n)%nat.
+Proof.
+  intros C. destruct (col_bsep n k o C) as [CN EI]. unfold prep_bmap_key. destruct long.
+  - rewrite EI. rewrite space_or_indent_put. rewrite col_put_char, CN by discriminate. cbn [Nat.ltb Nat.leb andb].
+    rewrite !col_put_char, CN by discriminate. replace (n + 1 - S (S n))%nat with 0%nat by lia.
+    cbn [repeat app]. split; [now rewrite !put_put|]. rewrite !col_put_char, CN by discriminate. lia.
+  - rewrite space_or_indent_put. rewrite andb_false_r. cbn [app].
+    change (put (nl_if (Nat.ltb 0 k) o) (repeat SP (n - col (nl_if (Nat.ltb 0 k) o)))) with (indent_to (nl_if (Nat.ltb 0 k) o) n).
+    rewrite EI, app_nil_r. split; [reflexivity|exact CN].
+Qed.
+
+Lemma prep_bmap_val_long n ck o :
+  prep_bmap_val n true ck o = put o (10 :: repeat SP n ++ 58 :: (match ck with CInline => [32] | _ => [] end)) /\
+  col (prep_bmap_val n true ck o) = (match ck with CInline => n + 2 | _ => n + 1 end)%nat.
+Proof.
+  unfold prep_bmap_val. rewrite indent_to_put, col_put_lf, Nat.sub_0_r.
+  assert (col (put (put o [LF]) (repeat SP n)) = n) as CN by (rewrite col_put_spaces, col_put_lf; lia).
+  destruct ck.
+  - rewrite space_or_indent_put. rewrite col_put_char, CN by discriminate. cbn [Nat.ltb Nat.leb andb].
+    rewrite !col_put_char, CN by discriminate. replace (n + 1 - S (S n))%nat with 0%nat by lia.
+    cbn [repeat app]. split; [rewrite !put_put; cbn [app]; rewrite <- ?app_assoc; reflexivity|]. rewrite !col_put_char, CN by discriminate. lia.
+  - rewrite !put_put. split; [reflexivity|]. rewrite <- !put_put. rewrite col_put_char, CN by discriminate. lia.
+  - rewrite !put_put. split; [reflexivity|]. rewrite <- !put_put. rewrite col_put_char, CN by discriminate. lia.
+Qed.
+
+Lemma prep_bmap_val_simple n ck o :
+  match ck with
+  | CInline => exists q, prep_bmap_val n false ck o = put o (58 :: 32 :: repeat SP q)
+  | _ => prep_bmap_val n false ck o = put o [58; 10] /\ col (prep_bmap_val n false ck o) = 0%nat
+  end.
+Proof.
+  unfold prep_bmap_val. destruct ck.
+  - rewrite space_or_indent_put. rewrite col_put_char by discriminate. cbn [Nat.ltb Nat.leb andb]. eexists. rewrite put_put. reflexivity.
+  - rewrite put_put. split; reflexivity.
+  - rewrite put_put. split; reflexivity.
+Qed.
+
+Definition ok_head (E : octs) : Prop := match E with x :: _ => ok_start x | [] => False end.
+
+Lemma plain_class_ok_start c : plain_class c = true -> ok_start c.
+Proof.
+  intros H. unfold ok_start, lit_byte_ok. repeat split; intros ->; discriminate H.
+Qed.
+
+Lemma tok_head_ok_head w : tok_head w -> ok_head w.
+Proof.
+  destruct w as [|x w]; [trivial|]. cbn. intros [->|[->|[->|H]]]; try (unfold ok_start, lit_byte_ok; repeat split; discriminate).
+  now apply plain_class_ok_start.
+Qed.
+
+(** one entry of a block map whose keys stand in column [n] *)
+Lemma map_child_reads d n key x : (d <= 2)%nat -> P_block x -> entry_ok (key, x) -> x <> Null ->
+  forall k o, (k = 0%nat -> (col o <= n)%nat) ->
+  exists E, map_child d n k key x o = put o (bsep n k o ++ E) /\ ok_head E /\
+    forall f rest R2 K2, (length E < f)%nat -> follows_b (S n) rest R2 K2 ->
+      exists c2, map_entry f (E ++ rest) n n = Some (key, prune x, R2, c2) /\ (R2 <> [] -> c2 = K2).
+Proof.
+  intros D PX (WK & LK & TX) NX k o CK. cbn [fst snd] in *.
+  unfold map_child. replace (Nat.leb 3 d) with false by (symmetry; apply Nat.leb_gt; lia). cbv zeta.
+  set (ks := nums key). set (ck := kindd (S d) x).
+  change (scalar_bytes_f (scalar_fmt false ks) (n + 2) ks) with (scalar_bytes false (n + 2) ks).
+  destruct (scalar_fmt false ks) eqn:F0.
+  1,2: assert (inline_fmt (scalar_fmt false ks)) as IF by (rewrite F0; discriminate).
+  1,2: assert (long_key (scalar_fmt false ks) ks = false) as LKF
+         by (rewrite F0; cbn [long_key]; apply Nat.ltb_ge; unfold ks; rewrite length_nums; lia).
+  1,2: rewrite F0 in LKF; rewrite LKF.
+  1,2: destruct (prep_bmap_key_put n k false o CK) as [EK CKK]; rewrite EK, app_nil_r, put_put;
+       set (ktok := scalar_bytes false (n + 2) ks); set (ok := put o (bsep n k o ++ ktok));
+       destruct WK as [VK _];
+       assert (tok_head ktok) as HK by apply (inline_scalar_reads false (n + 2) ks [] 0%nat VK IF I);
+       assert (length ktok <= 1024)%nat as LT
+         by (pose proof (scalar_bytes_len false (n + 2) ks VK IF) as Q; fold ktok in Q; unfold ks in Q; rewrite length_nums in Q; lia);
+       assert (match ktok with y :: _ => y <> 63 | [] => False end) as H63
+         by (pose proof (tok_head_facts _ HK) as Q; destruct ktok; [contradiction|tauto]);
+       destruct (PX (S d) (n + 2)%nat (n + 2)%nat (prep_bmap_val n false) ok (S n) (S n)) as (p & w & EM & CG & NB & BR);
+         [lia|exact TX|exact NX|lia|lia|lia|
+          intros BG; fold ck; pose proof (prep_bmap_val_simple n ck ok) as Q;
+          destruct (is_bgroup_kind _ _ BG) as [Q'|Q']; fold ck in Q'; rewrite Q' in *; destruct Q as [_ Q]; rewrite Q; lia|];
+       fold ck in EM, CG, BR; rewrite EM;
+       destruct (is_bgroup_dec (S d) x) as [BG|NBG].
+  1,3: (* value on the next lines *)
+       specialize (CG BG); pose proof (prep_bmap_val_simple n ck ok) as Q;
+       assert (prep_bmap_val n false ck ok = put ok [58; 10] /\ col (prep_bmap_val n false ck ok) = 0%nat) as [EV CV]
+         by (destruct (is_bgroup_kind _ _ BG) as [Q'|Q']; fold ck in Q'; rewrite Q' in *; exact Q);
+       rewrite CV in CG; rewrite EV; unfold ok; rewrite !put_put;
+       exists (ktok ++ 58 :: 10 :: repeat SP p ++ w); split;
+         [f_equal; repeat (rewrite <- app_assoc; cbn [app]); reflexivity|];
+       split; [pose proof (tok_head_ok_head _ HK) as Q1; destruct ktok; [contradiction|exact Q1]|];
+       intros f rest R2 K2 L FO; repeat (rewrite <- app_assoc; cbn [app]);
+       rewrite (map_entry_simple_nextline f ktok ks p w rest n n H63 LT NB) by
+         (lia || apply (inline_scalar_reads false (n + 2) ks _ n VK IF); reflexivity);
+       rewrite !app_length in L; cbn [length] in L; rewrite !app_length in L;
+       destruct (BR p true (fun _ => conj (eq_sym (eq_trans (eq_sym CG) eq_refl)) eq_refl) f rest R2 K2) as (c2 & E2 & CK2); [lia|exact FO|];
+       rewrite E2; unfold ks; rewrite unnums_nums; eauto.
+  1,2: (* value on the same line *)
+       assert (ck = CInline) as QC by (apply not_bgroup_kind; exact NBG);
+       pose proof (prep_bmap_val_simple n ck ok) as Q; rewrite QC in *; destruct Q as (q & EV);
+       rewrite EV; unfold ok; rewrite !put_put;
+       exists (ktok ++ 58 :: 32 :: repeat SP (q + p) ++ w); split;
+         [f_equal; repeat (rewrite <- app_assoc; cbn [app]); rewrite <- repeat_app_sp; repeat (rewrite <- app_assoc; cbn [app]); reflexivity|];
+       split; [pose proof (tok_head_ok_head _ HK) as Q1; destruct ktok; [contradiction|exact Q1]|];
+       intros f rest R2 K2 L FO; repeat (rewrite <- app_assoc; cbn [app]);
+       rewrite (map_entry_simple_inline f ktok ks (q + p) w rest n n H63 LT NB) by
+         (apply (inline_scalar_reads false (n + 2) ks _ n VK IF); reflexivity);
+       rewrite !app_length in L; cbn [length] in L; rewrite !app_length in L;
+       destruct (BR (S (n + length ktok) + S (q + p))%nat false ltac:(tauto) f rest R2 K2) as (c2 & E2 & CK2); [lia|exact FO|];
+       rewrite E2; unfold ks; rewrite unnums_nums; eauto.
+  (* literal key: the long form *)
+  assert (long_key FLiteral ks = true) as -> by reflexivity.
+  destruct (prep_bmap_key_put n k true o CK) as [EK CKK]. rewrite EK, put_put.
+  set (kw := scalar_bytes false (n + 2) ks). set (ok := put o ((bsep n k o ++ [63; 32]) ++ kw)).
+  destruct (prep_bmap_val_long n ck ok) as [EV CV].
+  destruct (PX (S d) (n + 2)%nat (n + 2)%nat (prep_bmap_val n true) ok (S n) (S n)) as (p & w & EM & CG & NB & BR);
+    [lia|exact TX|exact NX|lia|lia|lia| |].
+  { intros BG. fold ck. rewrite CV. destruct (is_bgroup_kind _ _ BG) as [Q'|Q']; fold ck in Q'; rewrite Q'; lia. }
+  fold ck in EM, CG, BR. rewrite EM, EV. unfold ok. rewrite !put_put.
+  destruct (block_scalar_reads key (n + 2) (S n) (S n + 1) false (S n) WK ltac:(lia) ltac:(lia)) as [BK NK].
+  fold ks in BK, NK. fold kw in BK, NK.
+  set (q := match ck with CInline => p | _ => 0%nat end).
+  assert ((match ck with CInline => [32] | _ => [] end) ++ repeat SP p ++ w = 32 :: repeat SP q ++ w /\
+          (is_bgroup (S d) x -> q = 0%nat)) as [EQ Q0].
+  { destruct (is_bgroup_dec (S d) x) as [BG|NBG].
+    - specialize (CG BG). rewrite CV in CG. destruct (is_bgroup_kind _ _ BG) as [Q'|Q']; fold ck in Q'; subst q; rewrite Q' in *;
+        (assert (p = 1%nat) as -> by lia); split; auto.
+    - assert (ck = CInline) as QC by (apply not_bgroup_kind; exact NBG). subst q. rewrite QC. split; [reflexivity|tauto]. }
+  exists (63 :: 32 :: kw ++ 10 :: repeat SP n ++ 58 :: 32 :: repeat SP q ++ w). split; [|split].
+  - f_equal. repeat (rewrite <- app_assoc; cbn [app]). do 3 f_equal. rewrite <- EQ. repeat (rewrite <- app_assoc; cbn [app]). reflexivity.
+  - cbn. unfold ok_start, lit_byte_ok. repeat split; discriminate.
+  - intros f rest R2 K2 L FO. cbn [app]. rewrite <- app_assoc.
+    cbn [length] in L. rewrite !app_length in L. cbn [length] in L. rewrite !app_length in L. cbn [length] in L. rewrite !app_length in L.
+    destruct (BK f (10 :: repeat SP n ++ 58 :: 32 :: repeat SP q ++ w ++ rest) (58 :: 32 :: repeat SP q ++ w ++ rest) n) as (ck2 & EKR & CKR);
+      [lia|constructor; [lia|unfold ok_start, lit_byte_ok; repeat split; discriminate]|].
+    specialize (CKR ltac:(discriminate)). subst ck2.
+    replace ((10 :: repeat SP n ++ 58 :: 32 :: repeat SP q ++ w) ++ rest) with (10 :: repeat SP n ++ 58 :: 32 :: repeat SP q ++ w ++ rest)
+      by (cbn [app]; repeat (rewrite <- app_assoc; cbn [app]); reflexivity).
+    rewrite (map_entry_long f kw _ key q w rest n n NK NB EKR).
+    destruct (BR (S n + S q)%nat true) with (fuel := f) (rest := rest) (rest' := R2) (k := K2) as (c2 & E2 & CK2);
+      [intros BG; rewrite (Q0 BG); split; [lia|reflexivity]|lia|exact FO|].
+    rewrite E2. eauto.
+Qed.
